@@ -87,3 +87,60 @@ func VerifC01Two() {
 	}
 	vReach("end")
 }
+
+// VerifC01History: after any history of subscribe / unsubscribe operations by clients, share-group members and
+// inline subscribers over a small set of filters, and of retained messages set and cleared on the same paths
+// (all of which add and prune index nodes), Subscribers(topic) selects exactly the subscriptions that the
+// history left in place and whose filter matches the topic.
+func VerifC01History() {
+	x := NewTopicsIndex()
+	filters := []string{"a/b", "a/+", "a/#", "a/b/c"}
+	var cli, shr, inl [4]bool // model: is there a client / shared / inline subscription on filters[i]?
+	steps := vParam("STEPS", 3)
+	for i := 0; i < steps; i++ {
+		fi := vChoose(4)
+		switch vChoose(7) {
+		case 0:
+			x.Subscribe("c1", packets.Subscription{Filter: filters[fi], Qos: 1})
+			cli[fi] = true
+		case 1:
+			x.Unsubscribe(filters[fi], "c1")
+			cli[fi] = false
+		case 2:
+			x.Subscribe("c2", packets.Subscription{Filter: "$share/g/" + filters[fi], Qos: 1})
+			shr[fi] = true
+		case 3:
+			x.Unsubscribe("$share/g/"+filters[fi], "c2")
+			shr[fi] = false
+		case 4:
+			x.InlineSubscribe(InlineSubscription{Subscription: packets.Subscription{Filter: filters[fi], Identifier: 1 + fi}, Handler: vNopInline})
+			inl[fi] = true
+		case 5:
+			x.InlineUnsubscribe(1+fi, filters[fi])
+			inl[fi] = false
+		case 6: // a retained message comes and goes on a concrete path
+			if fi == 0 || fi == 3 {
+				x.RetainMessage(packets.Packet{FixedHeader: packets.FixedHeader{Type: packets.Publish, Retain: true}, TopicName: filters[fi], Payload: []byte{1}})
+				x.RetainMessage(packets.Packet{FixedHeader: packets.FixedHeader{Type: packets.Publish, Retain: true}, TopicName: filters[fi]})
+			}
+		}
+	}
+	topic := []string{"a/b", "a/b/c", "a", "a/x"}[vChoose(4)]
+	subs := x.Subscribers(topic)
+	for fi, f := range filters {
+		m := refMatch(f, topic)
+		_, gotInl := subs.InlineSubscriptions[1+fi]
+		vAssert("inline-subscription-selected-iff-in-place-and-matching", gotInl == (inl[fi] && m))
+		_, gotShr := subs.Shared["$share/g/"+f]
+		vAssert("shared-subscription-selected-iff-in-place-and-matching", gotShr == (shr[fi] && m))
+	}
+	wantCli := false
+	for fi, f := range filters {
+		if cli[fi] && refMatch(f, topic) {
+			wantCli = true
+		}
+	}
+	_, gotCli := subs.Subscriptions["c1"]
+	vAssert("client-selected-iff-a-matching-subscription-is-in-place", gotCli == wantCli)
+	vReach("end")
+}
